@@ -593,10 +593,19 @@ impl FdlActiveStation {
     /// Wait for 33 bit times since last bus activity.
     ///
     /// This synchronization pause is required before every transmission.
-    fn wait_synchronization_pause(&mut self, now: crate::time::Instant) -> Option<PollDone> {
+    fn wait_synchronization_pause(
+        &mut self,
+        now: crate::time::Instant,
+        phy: &mut impl ProfibusPhy,
+    ) -> Option<PollDone> {
         if now <= (*self.last_bus_activity.get_or_insert(now) + self.p.bits_to_time(33)) {
             Some(PollDone::waiting_for_delay())
         } else {
+            // The bus has been idle for a whole synchronization pause, so data that is still
+            // pending in the receive buffer can never become a complete telegram anymore.  Drop
+            // it, otherwise it will be taken for the beginning of the next telegram we receive.
+            phy.receive_data(now, |buffer| (buffer.len(), ()));
+            self.pending_bytes = 0;
             None
         }
     }
@@ -813,7 +822,7 @@ impl FdlActiveStation {
 
         // Handle pending response to a telegram request we received
         if let Some(status_request_source) = *self.state.get_listen_token_status_request() {
-            return_if_done!(self.wait_synchronization_pause(now));
+            return_if_done!(self.wait_synchronization_pause(now, phy));
 
             // We must only respond to be ready (=without token) when the request is sent by our
             // known previous neighbor station.
@@ -999,7 +1008,7 @@ impl FdlActiveStation {
 
         // Handle pending response to a telegram request we received
         if let Some(status_request_source) = *self.state.get_active_idle_status_request() {
-            return_if_done!(self.wait_synchronization_pause(now));
+            return_if_done!(self.wait_synchronization_pause(now, phy));
 
             let tx_res = phy
                 .transmit_telegram(now, |tx| {
@@ -1036,7 +1045,7 @@ impl FdlActiveStation {
         match *self.state.get_claim_token_step() {
             s @ ClaimTokenStep::FirstToken | s @ ClaimTokenStep::SecondToken => {
                 // The token is claimed by sending a telegram to ourselves twice.
-                return_if_done!(self.wait_synchronization_pause(now));
+                return_if_done!(self.wait_synchronization_pause(now, phy));
                 let tx_res = phy
                     .transmit_telegram(now, |tx| {
                         Some(tx.send_token_telegram(self.p.address, self.p.address))
@@ -1059,7 +1068,7 @@ impl FdlActiveStation {
                 self.mark_tx(now, tx_res.bytes_sent())
             }
             ClaimTokenStep::Scan => {
-                return_if_done!(self.wait_synchronization_pause(now));
+                return_if_done!(self.wait_synchronization_pause(now, phy));
 
                 match &mut self.gap_state {
                     GapState::Waiting { .. } => {
@@ -1186,7 +1195,7 @@ impl FdlActiveStation {
             }
         }
 
-        return_if_done!(self.wait_synchronization_pause(now));
+        return_if_done!(self.wait_synchronization_pause(now, phy));
 
         if now < self.end_token_hold_time {
             *self.state.get_use_token_first_cycle_done() = true;
@@ -1278,7 +1287,7 @@ impl FdlActiveStation {
     ) -> PollDone {
         debug_assert_state!(self.state, State::PassToken { .. });
 
-        return_if_done!(self.wait_synchronization_pause(now));
+        return_if_done!(self.wait_synchronization_pause(now, phy));
 
         if *self.state.get_pass_token_do_gap() == DoGap::Yes {
             match &mut self.gap_state {
